@@ -111,6 +111,31 @@ def check_collection(case, ctx):
             bracket_ok(ctx, lbs[i, j], ubs[i, j], _exact(ctx, Ds[i], Ds[j]), "collection entry [%d,%d]" % (i, j))
 
 
+def dtype_boundary_cases():
+    """paths whose diameter sits at the width limit of the smallest-sufficient signed integer type (int8 holds distances up to 127), in every
+    container format and edge orientation, against the one-point and the two-point graph: the distance is known in closed form"""
+    for n in (126, 127, 128, 129, 130, 131):
+        for fi, f in enumerate(G.FORMATS):
+            for oi, o in enumerate([False, True, "permuted"]):
+                if (fi + oi + n) % 2:            # half of the combinations, alternating, to bound the cost
+                    continue
+                for m in (1, 2):
+                    yield {"n": n, "fmt": f, "orient": o, "m": m, "seed": n * 31 + fi}
+
+
+def check_dtype_boundary(case, ctx):
+    n, m = case["n"], case["m"]
+    g = {"n": n, "edges": [[i, i + 1] for i in range(n - 1)]}
+    h = {"n": m, "edges": [[0, 1]] if m == 2 else []}
+    ctx.label("diameter=%d" % (n - 1), "fmt:" + case["fmt"])
+    ctx.nontrivial(n - 1 >= 127)
+    out, warns = gh(ctx, case["seed"], G.adjacency(g, case["fmt"], case["orient"]), G.adjacency(h, "dense", False))
+    ctx.require(not warns, "spurious_warning", lambda: "warning on connected graphs: %s" % warns[0].message)
+    # every map from the path to <= 2 points has distortion >= diam - (m - 1); the map onto one point (or the two halves) attains it
+    exact = 0.5 * (n - 1 - (m - 1))
+    bracket_ok(ctx, float(out[0]), float(out[1]), exact, "path with %d vertices (diameter %d) vs the %d-point graph" % (n, n - 1, m))
+
+
 @st.composite
 def s_disconnected(draw):
     ncomp = draw(st.integers(2, 3))
@@ -172,6 +197,9 @@ CLAUSES = [
     Clause("collection", s_collection(), check_collection, quick=1200, thorough=15000,
            rule="collection call on 2..4 graphs in mixed formats: two symmetric N x N arrays with zero diagonal whose entries bracket each exact "
                 "pairwise distance; non-trivial = >= 3 graphs in >= 2 formats"),
+    Clause("dtype_boundaries", cases=dtype_boundary_cases, check=check_dtype_boundary,
+           rule="EXHAUSTIVE slice: paths with 126..131 vertices (diameters around the int8 limit 127 of the smallest-sufficient distance type) x container "
+                "formats x edge orientations (alternating half) against the one- and the two-point graph; the bounds must bracket the closed-form distance"),
     Clause("disconnected", s_disconnected(), check_disconnected, quick=2500, thorough=30000,
            rule="2..3 components (ties and isolated vertices included), either argument position, any format: a UserWarning is emitted, nothing is "
                 "raised, and the bounds bracket the exact distance computed for a largest component; non-trivial = largest component >= 2 vertices"),
